@@ -424,8 +424,13 @@ func genCase(rt *rapid.T) *Case {
 	g.stmts(1, 0, 30)
 	g.print(1)
 	body.WriteString(g.sb.String())
-	src := "package prog\n\nimport (\n\t\"fmt\"\n\t\"strings\"\n)\n\nvar x = 100\n\nfunc f(y int) int {\n\tws := []int{y, y + 1, y + 2}\n\twss := [][]int{{1, 2}, {3}}\n\t_, _ = ws, wss\n" + body.String() + "\treturn x + y\n}\n\n" +
-		"func Main() {\n\tfmt.Println(f(1))\n\tfmt.Println(x, strings.TrimSpace(\" main \"))\n\tfmt.Println(f(20))\n\tfmt.Println(x)\n}\n"
+	src := "package prog\n\nimport (\n\t\"fmt\"\n\t\"math\"\n\t\"strings\"\n)\n\nvar x = 100\n\nfunc f(y int) int {\n\tws := []int{y, y + 1, y + 2}\n\twss := [][]int{{1, 2}, {3}}\n\t_, _ = ws, wss\n" + body.String() + "\treturn x + y\n}\n\n" +
+		// parameters and locals named like imported packages, selecting fields and methods named like members of those
+		// packages that the same file also uses: the local binding wins inside its block, the package outside it
+		"type pkgbox struct {\n\tSqrt  float64\n\tCount int\n}\n\nfunc (b *pkgbox) Repeat(s string, n int) string {\n\treturn \"local:\" + s\n}\n\nfunc (b *pkgbox) TrimSpace(s string) string {\n\treturn \"up:\" + s\n}\n\n" +
+		"func usesPackages() {\n\tfmt.Println(strings.Repeat(\"q\", 2), strings.TrimSpace(\" a \"), strings.Contains(\"aaa\", \"a\"), math.Sqrt(16), math.Pi > 3)\n}\n\n" +
+		"func shadowsPackages(strings *pkgbox, n int) {\n\tfmt.Println(strings.Repeat(\"a\", n), strings.TrimSpace(\"b\"), strings.Count)\n\tif n > 0 {\n\t\tmath := &pkgbox{Sqrt: 1.5}\n\t\tfmt.Println(math.Sqrt * 3)\n\t}\n\tfmt.Println(math.Sqrt(9))\n\tfor _, fmtx := range []int{1} {\n\t\tstrings := fmtx\n\t\tfmt.Println(strings + 1)\n\t}\n\tfmt.Println(strings.Repeat(\"z\", 1))\n}\n\n" +
+		"func Main() {\n\tfmt.Println(f(1))\n\tfmt.Println(x, strings.TrimSpace(\" main \"))\n\tfmt.Println(f(20))\n\tfmt.Println(x)\n\tusesPackages()\n\tshadowsPackages(&pkgbox{Count: 7}, 2)\n\tusesPackages()\n}\n"
 	return &Case{Src: src, MaxLive: g.maxLive, ReadAfter: g.readAfterInner}
 }
 
